@@ -55,6 +55,21 @@ Fixpoint list_oracle (tbl : list (nat * nat)) : oracle :=
     | (l, k) :: r => if Nat.eqb l len then Nat.pred k else list_oracle r len
     end.
 
+(* the oracle of a SCRIPTED TRANSPORT: the stream of [total] bytes arrives in segments ending at the
+   positions [ends] (ascending, the last one = total) and a segment is handed to the reader exactly
+   when its buffer is empty (asyncio.StreamReader: read(n) returns what is buffered, up to n, and
+   waits for the transport only on an empty buffer; readline may pull several segments, after which
+   the buffer holds the rest of the last one).  So with [len] bytes pending, i.e. at position
+   total - len, the buffer holds the rest of the segment that position lies in.  Unlike
+   [list_oracle] this does not look at the reads an implementation made. *)
+Fixpoint seg_end (ends : list nat) (p : nat) : nat :=
+  match ends with
+  | [] => S p
+  | e :: r => if Nat.ltb p e then e else seg_end r p
+  end.
+Definition cuts_oracle (total : nat) (ends : list nat) : oracle :=
+  fun len => Nat.pred (seg_end ends (total - len) - (total - len)).
+
 Fixpoint find_lf (l : list N) : option nat :=
   match l with
   | [] => None
